@@ -267,6 +267,6 @@ func runC07(r *ev.Run) {
 	r.Set("searches", searches.Load())
 	r.Set("distinct_outcomes", map[string]int64{"reported_variations": lines.Load(), "variation_moves_replayed": pvMoves.Load(), "one_move_variations_at_depth_ge_2": oneMovePV.Load(), "searches_with_ponder_move": ponders.Load()})
 	r.Set("exhaustive", false)
-	r.Set("rule", "fresh table: every root of the corpus plus shuffle-history roots x depth 1..5(7) x table {32000 B, 1 MiB}, hard-budget sweeps at depth 3 on a third of the roots; warmed table: engine-vs-engine games with one persistent instance (every search judged, some ending by abort); oracle: every reported variation replays legally in the reference model from the root, returned move = head of the most recent non-empty variation, ponder legal after it, reported depths strictly increase and node counts never decrease; states = searches, transitions = variation moves replayed; non-trivial = reported variations")
+	r.Set("rule", "fresh table: every root of the corpus plus shuffle-history roots x depth 1..5(7) x table {32000 B, 1 MiB}, hard-budget sweeps at depth 3 on a third of the roots, a soft node limit after every iteration of the deepest search; warmed table: engine-vs-engine games with one persistent instance (every search judged, some ending by abort); oracle: every reported variation replays legally in the reference model from the root, returned move = head of the most recent non-empty variation, ponder legal after it, reported depths strictly increase and node counts never decrease; states = searches, transitions = variation moves replayed; non-trivial = reported variations")
 	r.Assume("the space of table states is sampled by deterministic games, not exhausted; each search is an exhaustive check of all its reported lines")
 }
